@@ -853,8 +853,34 @@ impl<'a> Gen<'a> {
     fn stmt_inner(&mut self, depth: usize, indent: usize) -> String {
         let pad = "  ".repeat(indent);
         let d = depth.saturating_sub(1);
-        let choice = if depth == 0 { self.r.below(9) } else { self.r.below(16) };
+        let choice = if depth == 0 { self.r.below(10) } else { self.r.below(17) };
+        let choice = if depth == 0 && choice == 9 { 16 } else { choice };
         match choice {
+            16 => {
+                // a list / set LITERAL whose elements are node calls, bound to a local: evaluated once per binding (strict: where
+                // it stands; lazy: one thunk, forced at most once and in any case at the end), read twice, once or never (C02)
+                let v = self.fresh("nl");
+                if self.name_taken(&v) {
+                    return String::new();
+                }
+                self.feature("node-list-literal");
+                let as_set = self.r.chance(1, 3);
+                let lit = if as_set { "{(node)}" } else { *self.r.pick(&["[(node)]", "[(node), (node)]"]) };
+                let reads = self.r.below(3);
+                let mut out = format!("{}let {} = {}\n", pad, v, lit);
+                if as_set {
+                    if reads > 0 {
+                        let n = self.fresh("nh");
+                        out.push_str(&format!("{}node {}\n{}attr ({}) nla = {}, nlb = {}\n", pad, n, pad, n, v, v));
+                    }
+                } else {
+                    for k in 0..reads {
+                        let x = self.fresh("nx");
+                        out.push_str(&format!("{}for {} in {} {{\n{}  attr ({}) nl{} = {}\n{}}}\n", pad, x, v, pad, x, k, k, pad));
+                    }
+                }
+                out
+            }
             0 | 1 => {
                 // node + attr
                 let n = self.fresh("n");
@@ -1285,6 +1311,26 @@ pub fn gen_program(r: &mut Rng, pool: &[Pattern], opts: &Opts) -> Program {
     }
     static_pending = false;
     let _ = static_pending;
+    // a placeholder stanza: no capture, empty block. It still has to be given its file-level full-match capture index by the
+    // checker, and its matches are visited in both modes (C03)
+    if opts.static_fault == 0 && g.r.chance(1, 5) {
+        g.feature("empty-captureless-stanza");
+        let pat = *g.r.pick(&["(pass_statement)", "(identifier)", "(module)", "(expression_statement)", "(block)", "(integer)", "(call)"]);
+        let at = g.r.below(stanzas.len() + 1);
+        stanzas.insert(at, format!("{} {}\n", pat, *g.r.pick(&["{ }", "{}", "{\n}"])));
+    }
+    // a MUTABLE scoped variable declared twice on one node (by two stanzas, or twice by one): a duplicate in every
+    // combination of `var` and `let`; a single `var` followed by `set` is fine in strict mode (C04)
+    if opts.scoped_heavy && !opts.fragment && opts.static_fault == 0 && g.r.chance(1, 6) {
+        g.feature("mutable-scoped-redeclared");
+        let (k1, k2) = *g.r.pick(&[("var", "var"), ("var", "let"), ("let", "var"), ("var", "set")]);
+        let pat = *g.r.pick(&["(module)", "(identifier)", "(pass_statement)"]);
+        if g.r.chance(1, 2) {
+            stanzas.push(format!("{} @mv1 {{\n  {} @mv1.cnt = 1\n}}\n{} @mv2 {{\n  {} @mv2.cnt = 2\n  node mvn\n  attr (mvn) cnt = @mv2.cnt\n}}\n", pat, k1, pat, k2));
+        } else {
+            stanzas.push(format!("{} @mv1 {{\n  {} @mv1.cnt = 1\n  {} @mv1.cnt = 2\n  node mvn\n  attr (mvn) cnt = @mv1.cnt\n}}\n", pat, k1, k2));
+        }
+    }
     let text = format!("{}{}", header, stanzas.concat());
     let stanza_count = stanzas.len();
     let static_fault = header_fault.or(g.sf.clone());
